@@ -375,10 +375,16 @@ pub fn record_offsets(output: &str) {
         // joint values on another 2 pi branch (same posture, still legal modulo 2 pi)
         if tries % 4 == 2 { for i in 0..6 { if r.gen_bool(0.3) { initial[i] += if initial[i] > 0.0 { -two_pi } else { two_pi }; } } }
         // from / to vectors: mostly inside the limits, sometimes outside (must be withheld)
-        let from: Joints = std::array::from_fn(|i| if r.gen_bool(0.15) { lo(i) - 0.2 } else { initial[i] - r.gen_range(0.2..0.8) });
-        let to: Joints = std::array::from_fn(|i| if r.gen_bool(0.15) { lim_to[i] + 0.2 } else { initial[i] + r.gen_range(0.2..0.8) });
+        let mut from: Joints = std::array::from_fn(|i| if r.gen_bool(0.15) { lo(i) - 0.2 } else { initial[i] - r.gen_range(0.2..0.8) });
+        let mut to: Joints = std::array::from_fn(|i| if r.gen_bool(0.15) { lim_to[i] + 0.2 } else { initial[i] + r.gen_range(0.2..0.8) });
         // the candidate at which a pair is brought together
         let j = r.gen_range(0..6);
+        // every third case: one other joint already stands at its 'from' or 'to' value (a step clipped at a limit): that
+        // candidate is the initial vector itself, free and (if the initial vector is) legal
+        if tries % 3 == 2 {
+            let z = (j + 1 + r.gen_range(0..5)) % 6;
+            if r.gen_bool(0.5) { from[z] = initial[z]; } else { to[z] = initial[z]; }
+        }
         let side_to = r.gen_bool(0.5);
         let mut cand = initial;
         cand[j] = if side_to { to[j] } else { from[j] };
